@@ -67,6 +67,31 @@ CHECKS = {
         "actually used by a render (and per-call override) read off the protocol framing; instantiation refused iff neither supported nor forced.",
         note="Trusts the resolution model in vf/checks/c20.py and VTerm's protocol parsing for counting graphics commands.",
     ),
+    "C08": dict(
+        level="exploration",
+        technique="runtime monitor: executable reference model of RenderIterator compared step by step over all short and many random operation histories (delta-minimised witnesses)",
+        text="ALL operation sequences of length <= 4 (quick) / <= 6 (thorough) over a 12-symbol alphabet for frame counts 2,3 x loops 1,2 x cache "
+        "on/off, plus random histories up to 60 operations on definite and INDEFINITE sources: frame number, duration, size, output, error, "
+        "loop countdown, renderable.tell() and what an INDEFINITE source is handed are compared with the model after every step.",
+        note="Trusts vf/models/iterator.py (from the docstrings) and the library's Padding.pad for the look of a padded frame (C05 decides that).",
+    ),
+    "C09": dict(
+        level="exploration",
+        technique="runtime monitor: differential execution of cached vs un-cached iterators (RenderIterator and ImageIterator) + per-epoch render counter",
+        text="Paired iterators run the same history; any differing yielded frame, error or loop countdown is a violation, and with caching on a "
+        "frame may be rendered at most once per settings epoch (observed in the subject's _render_ log). Image iterators are paired over "
+        "generated GIF/WebP files with seeks, size changes and terminal resizes.",
+        note="The un-cached iterator is the specification (decided by C08/C11); APNG sources excluded because of a Pillow 11.1 seek bug.",
+    ),
+    "C10": dict(
+        level="fault_enumeration",
+        technique="fault enumeration: exception injected at the k-th frame render for every k of every generated scenario (5 exception kinds) + size failures; per-token finalization counters",
+        text="Every scenario (str, render, draw still/animated, full/partial iteration, close twice, drop reference, seeks, __iter__, "
+        "_from_render_data_ with either ownership) is profiled fault-free and re-run with a fault at each render call; every render-data "
+        "token must be finalized exactly once (0 times by the library when the caller keeps ownership), explicitly rather than only by the "
+        "collector once rendering has started, never used after finalization, and the iterator must be closed afterwards.",
+        note="Finalization is observed through the subject's own _finalize_render_data_ / _render_ (tokens in its _Data_ namespace); CPython reference counting assumed for the drop-reference scenario.",
+    ),
 }
 
 NOT_APPLICABLE = {
